@@ -317,8 +317,14 @@ func emptyPointRule(p *core.Program, r *core.Report, rule string) {
 		// the store index is the range variable over numCoords: loop compare i < numCoords
 		hasBound := false
 		for _, b := range fn.Blocks {
-			if c, okc := eng.EdgeCmp(b, 0); okc && c.Op == token.LSS && len(fn.Params) >= 3 && c.Y == fn.Params[2] {
-				hasBound = true
+			if c, okc := eng.EdgeCmp(b, 0); okc && c.Op == token.LSS && len(fn.Params) >= 3 {
+				if c.Y == ssa.Value(fn.Params[2]) {
+					hasBound = true
+				}
+				// ... or by the length of the array that was sized by numCoords
+				if lx, isLen := eng.LenOf(c.Y); isLen && mk != nil && lx == ssa.Value(mk) {
+					hasBound = true
+				}
 			}
 		}
 		if !hasBound {
